@@ -287,6 +287,7 @@ def run(ctx):
     t, cf = tlcmod.gen_mc(ctx.work, "McChain", "MC_Mc", base, invariants=INVS)
     r = ctx.model_check(t, cf, workers=8, coverage=True, label="exhaustive", timeout=600)
     ctx.check_coverage(r, ["BurnStep", "StartCollect", "CollectStep", "Quadrature", "Integrate", "Backward"])
+    ctx.check_proof("McChain_proofs")          # the same invariants for every nsamples and nburnout (chain samplers)
     for sw, val, inv in (("CollectFrom", "x0", None), ("CollectCount", "nburn", "CountOK"), ("BurnSteps", "n-1", "AfterBurnIn"), ("BwdOnSamples", False, "BackwardOnSamples")):
         c = dict(base)
         c[sw] = val
